@@ -71,7 +71,65 @@ def gen_graph(rng: random.Random, n: int, shape: str) -> tuple[dict[str, str], d
     return f0, render(rt2)
 
 
+DEF_BODIES = ["return ''", "x: int = ''\n{i}    return 0", "return undefined_name_{k}", "return 1 + ''"]
+CONTEXTS = [
+    # (prefix lines, indentation of the def, suffix lines); every def body holds a type error that must be reported
+    ("", "", ""),
+    ("import sys\nif sys.argv:\n    sys.exit(1)\n", "", ""),                       # after a possible exit
+    ("import sys\nsys.exit(0)\n", "", ""),                                        # unreachable tail of the module
+    ("def _noret() -> 'NoReturn': ...\nfrom typing import NoReturn\n_noret()\n", "", ""),
+    ("assert False\n", "", ""),
+    ("raise RuntimeError()\n", "", ""),
+    ("class K{k}:\n    y = 1\n", "    ", ""),
+    ("class K{k}:\n    raise RuntimeError()\n", "    ", ""),
+    ("try:\n    pass\nexcept Exception:\n", "    ", ""),
+    ("try:\n    pass\nfinally:\n", "    ", ""),
+    ("if int():\n", "    ", "else:\n    pass\n"),
+    ("while False:\n", "    ", ""),
+    ("for _q in []:\n", "    ", ""),
+    ("def outer{k}() -> None:\n", "    ", ""),
+    ("def outer{k}() -> None:\n    return\n", "    ", ""),
+    ("with open('f') as _f:\n", "    ", ""),
+    ("from typing import TYPE_CHECKING\nif not TYPE_CHECKING:\n", "    ", ""),
+    ("import sys\nif sys.version_info < (3, 0):\n", "    ", ""),
+]
+DEF_FORMS = ["def f{k}() -> int: {one}", "def f{k}() -> int:\n{i}    {body}", "async def f{k}() -> int:\n{i}    {body}",
+             "@staticmethod\n{i}def f{k}() -> int:\n{i}    {body}", "def f{k}(a: int = '') -> int:\n{i}    {body}",
+             "f{k} = lambda: 1 + ''", "def f{k}() -> int:\n{i}    def g() -> str:\n{i}        return 1\n{i}    {body}"]
+
+
+def phase_split_program(rng: random.Random, n_units: int) -> dict[str, str]:
+    """Definitions in every kind of syntactic context (reachable and unreachable, one-line and multi-line, last statement of
+    a region or not): the parallel build checks function bodies in a separate implementation phase and must report exactly
+    what the sequential build reports."""
+    files = {}
+    main = []
+    for m in range(n_units):
+        parts = []
+        k = 0
+        for _ in range(rng.randint(1, 3)):
+            pre, ind, suf = rng.choice(CONTEXTS)
+            k += 1
+            form = rng.choice(DEF_FORMS)
+            body = rng.choice(DEF_BODIES).format(i=ind, k=k)
+            one = body.split("\n")[0] if "\n" not in body else "return ''"
+            text = pre.format(k=k) + ind + form.format(k=k, i=ind, body=body, one=one) + "\n" + suf
+            if rng.random() < 0.5:
+                text += ind + f"z{k}: int = 0\n"       # sometimes the def is NOT the last statement of its region
+            parts.append(text)
+        files[f"u{m}.py"] = "".join(parts)
+        main.append(f"import u{m}\n")
+    files["main.py"] = "".join(main)
+    return files
+
+
 def cases(ctx: common.Ctx, n_prog: int, n_sched: int) -> Iterator[dict[str, Any]]:
+    for k in range(max(2, n_prog // 2)):
+        r = common.rng_for("C07", "phase", ctx.seed, k)
+        f0 = phase_split_program(r, 14)
+        yield {"fn": "vlib.tasks.parallel:run_case",
+               "args": {"versions": [f0], "n": [2, 3][k % 2], "scheds": [f"{ctx.seed}-ps{k}:default"], "targets": ["main.py"], "flags": [], "store_flags": []},
+               "_k": f"phase{k}", "_shape": "phase-split", "_size": 14}
     shapes = ["chain", "fan", "diamond", "mixed", "cycles", "mixed"]
     for k in range(n_prog):
         r = common.rng_for("C07", "p", k)
@@ -139,6 +197,10 @@ def run(ctx: common.Ctx) -> None:
                     if run_.get("edit_warm_equal") is False:
                         ctx.violation("cache-left-by-parallel-build:warm-after-edit-differs", "sequential warm run after parallel-after-edit differs from cold",
                                       {**wit, "diffs": run_.get("edit_warm_diffs")})
+                    if run_.get("revert_warm_equal") is False:
+                        ctx.violation("cache-left-by-parallel-build:warm-after-revert-differs",
+                                      "after edit -> parallel run -> revert, the warm run differs from the cold run of the original files",
+                                      {**wit, "warm": run_.get("revert_warm_out"), "cold": res["seq0"]["out"], "diffs": run_.get("revert_warm_diffs")})
                     if run_["equal"] and len(ctx.samples) < 6:
                         ctx.sample({"program": t["_k"], "shape": t["_shape"], "modules": t["_size"], "n": run_["n"], "sched": run_["sched"],
                                     "workers_used": h.get("workers_used"), "sccs_processed": h.get("n_sccs_processed"),
